@@ -106,11 +106,13 @@ def unit_vector(unit):
                 agg.outcomes["int-ok"] += 1
                 if isinstance(got, Exception) or canon_elem(got) != canon_elem(want):
                     agg.violation(V("vector.getitem.int", "wrong-element", case, want, repr(got)))
-        # ---- slices
-        for sl in slice_box(n):
+        # ---- slices (the operand is built through a different route for every key: provenance round-robin)
+        from mc import provenance
+        for si, sl in enumerate(slice_box(n)):
             agg.evals += 1; agg.transitions += 1; agg.states += 1
+            route, v = provenance.vector_variant(base, name, si)
             want = base[sl]
-            case = dict(d, key=[sl.start, sl.stop, sl.step])
+            case = dict(d, key=[sl.start, sl.stop, sl.step], route=route)
             py = f"from serif import Vector\nv = Vector({base!r}, name={name!r})\nprint(list(v[{sl.start}:{sl.stop}:{sl.step}]), 'expected', {want!r})"
             try:
                 res = v[sl]
@@ -124,6 +126,7 @@ def unit_vector(unit):
         # source untouched by all of that
         if not same_list(list(v._underlying), base) or v._name != name:
             agg.violation(V("vector.getitem", "operand-modified", d))
+        v = mk(Vector, kind, n, name)
         # ---- masks
         for m in (n - 1, n, n + 1):
             if m < 0:
@@ -136,10 +139,13 @@ def unit_vector(unit):
                     agg.evals += 1; agg.transitions += 1; agg.states += 1
                     key = list(bits) if form == "list" else Vector(list(bits), dtype=bool)
                     case = dict(d, mask=list(bits), form=form)
+                    mi = mi + 1 if "mi" in dir() else 0
+                    route, vv = provenance.vector_variant(base, name, mi)
                     try:
-                        res = v[key]
+                        res = vv[key]
                     except Exception as e:
                         res = e
+                    v = vv
                     if m != n:
                         agg.compared += 1
                         agg.outcomes["mask-wrong-length"] += 1
@@ -513,12 +519,14 @@ def unit_table(unit):
                     agg.violation(V("table.getitem.2d", "raises-" + type(e).__name__, case, want))
 
     # ---- row selection alone: applied to every column alike
+    from mc import provenance
     for ki, (rk, form) in enumerate(rowkeys):
         agg.evals += 1; agg.transitions += 1; agg.states += 1
         want = model_select_rows(model, rk, nrows)
-        case = dict(d, rowkey=_kdesc(rk), form=form)
+        route, tv = provenance.table_variant(model, ki)        # the table itself comes from a different route each time
+        case = dict(d, rowkey=_kdesc(rk), form=form, route=route)
         try:
-            res = t[real_rowkey(Vector, rk, form)]
+            res = tv[real_rowkey(Vector, rk, form)]
         except Exception as e:
             res = e
         agg.compared += 1
